@@ -324,6 +324,20 @@ fn execute_c15(case: &Value, _scratch: &str) -> Outcome {
         }
     }
     let mut others_stored: Vec<(String, String, u32, String, String)> = Vec::new();
+    if case["foreign_params_first"].as_bool().unwrap_or(false) {
+        // the object was protected by another producer before: other algorithm, other spin count, its own salt/hash
+        match kf {
+            "sheet" => {
+                book.get_sheet_mut(&tsheet).unwrap().get_sheet_protection_mut().set_algorithm_name("SHA-256").set_spin_count(1000).set_salt_value("c2FsdHNhbHRzYWx0c2FsdA==").set_hash_value("aGFzaGhhc2hoYXNoaGFzaGhhc2hoYXNoaGFzaGhhc2g=");
+            }
+            "workbook" => {
+                book.get_workbook_protection_mut().set_workbook_algorithm_name("SHA-256").set_workbook_spin_count(1000).set_workbook_salt_value("c2FsdHNhbHRzYWx0c2FsdA==").set_workbook_hash_value("aGFzaGhhc2hoYXNoaGFzaGhhc2hoYXNoaGFzaGhhc2g=");
+            }
+            _ => {
+                book.get_workbook_protection_mut().set_revisions_algorithm_name("SHA-256").set_revisions_spin_count(1000).set_revisions_salt_value("c2FsdHNhbHRzYWx0c2FsdA==").set_revisions_hash_value("aGFzaGhhc2hoYXNoaGFzaGhhc2hoYXNoaGFzaGhhc2g=");
+            }
+        }
+    }
     let r = guarded(|| {
         umya::verif_hooks::with_entropy(src, || {
             for (k, sh, pw) in &others {
@@ -490,6 +504,7 @@ pub fn cases_c15(run_seed: u64, _tier: &str, _scratch: &str) -> Vec<Value> {
     c["light"] = json!(sw.chance(1, 3));
     c["legacy_first"] = json!(sw.chance(1, 3));
     c["sheet"] = json!(sw.usize(3));
+    c["foreign_params_first"] = json!(sw.chance(1, 4));
     if sw.chance(1, 2) {
         let n = 1 + sw.usize(3);
         let mut others: Vec<Value> = Vec::new();
